@@ -58,7 +58,7 @@ Definition st1 : state := mkState [] [] [] [(stage0, 1%N); (sentA, 3%N); (sentB,
 (* REPAIRED by 5539e78.  Before it (step_v true false: df0ecd0 in, no check on record paths at use time): ingest(copy) into a
    run that encodes ".." three times is accepted -- the written location is inside the root -- the record it leaves names a
    location OUTSIDE the root, and pruning the dataset deleted the foreign file there *)
-Definition step_nofix : state -> op -> state * outcome := step_v true false.
+Definition step_nofix : state -> op -> state * outcome := step_v true false true.
 Definition nested_ingest : op := Ingest Copy [1%N] (fmt1 run3) ".yaml" stage0.
 Definition nested_put : op := Put 2 (fmt run3) ".yaml" 9.
 
